@@ -29,3 +29,10 @@ claim("C12", "proof", "typestate analysis of module-level tables over the gramma
       "Also proves no process-wide object is stored into programs/listeners or returned. Obligations = (event, table) pairs + inventory entries + store sites; all discharged.",
       "Trusted: ParseTreeWalker event order; generated prediction caches are transparent; warnings registry affects only warnings.",
       "DESIGN.md 4.5 TS/EFF, 5/C12")
+
+claim("C19", "proof", "unordered-collection taint analysis (sources: sets, free_symbols, set-returning properties; sinks: order-sensitive consumers) over ast with function summaries",
+      "Every unordered source whose element hashes derive from strings (SymPy free_symbols, the parameters property, set() of names) in the handwritten package is followed through "
+      "materialisation (list/tuple/comprehension/dict/lambdify) to its consumers; none reaches an order-sensitive sink. The documented exception (RegRefTransform's register order) is admitted only in "
+      "its paired form, which is checked structurally. Obligations = sources + sinks + pairing clauses; all discharged.",
+      "Trusted: SymPy's printer orders terms canonically; dict order is insertion order; int-element sets iterate independently of the seed (reported as information here, decided under C07/C16).",
+      "DESIGN.md 4.5 ORD, 5/C19")
